@@ -72,8 +72,10 @@ def make_func(sig, name='kf', strret=False, method=False):
     """def kf(<sig>): record an evaluation and return a token describing the binding received
     (method=True: def kf(self, <sig>), to be placed in a class body)"""
     params = ['self'] if method else []
-    for p in sig['pos']:
+    for n, p in enumerate(sig['pos']):
         params.append(p['n'] + ('=%r' % val(p['d']) if p['hd'] else ''))
+        if p.get('po') and not (n + 1 < len(sig['pos']) and sig['pos'][n + 1].get('po')):
+            params.append('/')           # the parameters so far are positional-only
     if sig['va']:
         params.append('*a')
     elif sig['ko']:
@@ -99,8 +101,10 @@ def make_siblings(sig, defaults):
     """functions made by one factory (one code object) that differ in the value of their defaults:
     def factory(D): def kf(x, y=D, ...): ...  -> [factory(d) for d in defaults]"""
     params = []
-    for p in sig['pos']:
+    for n, p in enumerate(sig['pos']):
         params.append(p['n'] + ('=D' if p['hd'] else ''))
+        if p.get('po') and not (n + 1 < len(sig['pos']) and sig['pos'][n + 1].get('po')):
+            params.append('/')
     if sig['va']:
         params.append('*a')
     elif sig['ko']:
